@@ -152,7 +152,10 @@ pub fn child_main(spec: &ExecSpec, argv: &[String], input_id: Option<(u64, u64)>
     let io_state = fpsim_rt::io::end();
     // keep the borrow checker and the optimizer honest about stdin's buffer: nothing to drain in a
     // forked child (the process ends here).
-    let _ = std::io::stdin().lock().bytes().size_hint();
+    // (a reader parked for good in a stalled read holds std's stdin lock: do not wait for it)
+    if !fpsim_rt::sched::any_thread_stalled() {
+        let _ = std::io::stdin().lock().bytes().size_hint();
+    }
     let (value, outcome) = match r {
         Ok(x) => x,
         Err(e) => {
